@@ -9,7 +9,7 @@ import z3
 
 from .contract import Contract
 from .pyexpr import ExprMixin, PyDictLit
-from .pyvals import (NONE, Exc, IntSeq, NoneVal, PAbs, PyCache, PyCallable, PyConst, PyGen, PyKey, PyList, PyMap, PyObj,
+from .pyvals import (NONE, Exc, IntSeq, NoneVal, PAbs, PyCache, PyCallable, PyConst, PyGen, PyKey, PyList, PyMap, PyObj, PyRuleSeq,
                      PyStrSet, PyTuple, StrSeq, Tok, TokSeq, Val, ValSeq, VAL_AXIOMS, clone, fresh, is_bool, is_int, is_seq,
                      is_str, is_tok, is_val, is_z3, tok_fields, truthy)
 from .pyvc import (VC, St, Tr, Unsupported, dedent, eq, is_keyword, is_soft_keyword, join_lines, lift, str_isspace, str_lower,
@@ -21,6 +21,9 @@ _AP, _AT, _AE = z3.ArraySort(I, z3.BoolSort()), z3.ArraySort(I, Val), z3.ArraySo
 F_res = z3.Function("F_res", I, I, PAbs, _AP, _AT, _AE, Val)
 F_idx = z3.Function("F_idx", I, I, PAbs, _AP, _AT, _AE, I)
 F_abs = z3.Function("F_abs", I, I, PAbs, _AP, _AT, _AE, PAbs)
+F_cp = z3.Function("F_cache_present", I, I, PAbs, _AP, _AT, _AE, _AP)
+F_ct = z3.Function("F_cache_tree", I, I, PAbs, _AP, _AT, _AE, _AT)
+F_ce = z3.Function("F_cache_end", I, I, PAbs, _AP, _AT, _AE, _AE)
 
 EXC_CLASSES = {"SyntaxError", "IndentationError", "TokenError", "ValueError", "KeyError", "IndexError", "TypeError",
                "StopIteration", "AssertionError", "AttributeError", "RuntimeError", "Exception"}
@@ -64,6 +67,10 @@ class Executor(ExprMixin):
         self._feas.set("timeout", 200)
         self.vc_counter = 0
         self.witness_hints = None
+        self.product_run = None
+        self.product_related = ()
+        self.loop_log = {}
+        self.cur_loop = None
         self.assuming = False
         self._id_seen = {}
         self.stats = {"paths": 0, "forks": 0}
@@ -323,6 +330,12 @@ class Executor(ExprMixin):
             st.env[t.id] = v
             return None
         if isinstance(t, (ast.Tuple, ast.List)):
+            if (isinstance(v, PyCallable) and v.kind == "rulefn" and len(t.elts) == 2 and isinstance(t.elts[1], ast.Starred)
+                    and isinstance(t.elts[0], ast.Name)):
+                # `method, *args = arg` for a (callable, args...) reference: the pair denotes one rule-like callable
+                st.env[t.elts[0].id] = v
+                st.env[t.elts[1].value.id] = PyConst("varargs")
+                return None
             if isinstance(v, (PyTuple, PyList)):
                 items = v.items
             elif is_tok(v):
@@ -449,13 +462,22 @@ class Executor(ExprMixin):
                     attrs.add(ast.unparse(t.value)) if not isinstance(t.value, ast.Name) else names.add(t.value.id)
         return names, attrs, calls
 
+    def rel_fresh(self, v, prefix, path):
+        """product mode: loop-carried variables in the relational invariant get the SAME symbol in both runs"""
+        if self.product_run is not None and path in self.product_related and is_z3(v):
+            return z3.Const(f"rel!{self.cur_loop}!{path}", v.sort())
+        if self.product_run is not None and path in self.product_related and isinstance(v, PyCache):
+            return PyCache(z3.Const(f"rel!{self.cur_loop}!{path}!p", v.present.sort()), z3.Const(f"rel!{self.cur_loop}!{path}!t", v.tree.sort()),
+                           z3.Const(f"rel!{self.cur_loop}!{path}!e", v.end.sort()))
+        return self.fresh_like(v, prefix)
+
     def havoc_path(self, st, path: str, prefix: str, env=None):
         env = st.env if env is None else env
         parts = path.split(".")
         if parts[0] not in env:
             return
         if len(parts) == 1:
-            env[parts[0]] = self.fresh_like(env[parts[0]], prefix + parts[0])
+            env[parts[0]] = self.rel_fresh(env[parts[0]], prefix + parts[0], path)
             return
         o = env[parts[0]]
         for p in parts[1:-1]:
@@ -463,7 +485,7 @@ class Executor(ExprMixin):
                 return
             o = o.fields.get(p)
         if isinstance(o, PyObj) and parts[-1] in o.fields:
-            o.fields[parts[-1]] = self.fresh_like(o.fields[parts[-1]], prefix + path)
+            o.fields[parts[-1]] = self.rel_fresh(o.fields[parts[-1]], prefix + path, path)
 
     def havoc_for_loop(self, st, body, extra_paths=(), types=None):
         names, attrs, calls = self.assigned_in(body)
@@ -473,9 +495,9 @@ class Executor(ExprMixin):
                 alts = self.mk(types[n], f"h_{n}", st)
                 if len(alts) != 1:
                     raise Unsupported("optional loop variable type (declare the some-case and guard in the invariant)")
-                st.env[n] = alts[0]
+                st.env[n] = self.rel_fresh(alts[0], f"h_{n}", n)
             elif n in st.env:
-                st.env[n] = self.fresh_like(st.env[n], f"h_{n}")
+                st.env[n] = self.rel_fresh(st.env[n], f"h_{n}", n)
         for a in sorted(attrs) + list(extra_paths):
             self.havoc_path(st, a, "h_")
         for c in calls:
@@ -506,8 +528,8 @@ class Executor(ExprMixin):
 
     def havoc_rulefn_effects(self, st):
         parser, tk = self.parser_objs(st)
-        tk.fields["_index"] = fresh("h_index", I)
-        tk.fields["_abs"] = fresh("h_abs", PAbs)
+        tk.fields["_index"] = self.rel_fresh(tk.fields["_index"], "h_index", "self._tokenizer._index")
+        tk.fields["_abs"] = self.rel_fresh(tk.fields["_abs"], "h_abs", "self._tokenizer._abs")
         tk.fields["_tokens"] = fresh("h_tokens", TokSeq)
         g = tk.fields["_tokengen"]
         tk.fields["_tokengen"] = type(g)(g.items, fresh("h_gpos", I))
@@ -516,11 +538,10 @@ class Executor(ExprMixin):
             tk.fields[fl] = fresh("h" + fl, z3.BoolSort())
         tk.fields["_lines"] = self.fresh_like(tk.fields["_lines"], "h_lines")
         if parser is not None:
-            parser.fields["_cache"] = PyCache.fresh("h_cache")
+            parser.fields["_cache"] = self.rel_fresh(parser.fields["_cache"], "h_cache", "self._cache")
 
     def loop_contract(self, node):
-        k = self.loop_counter
-        self.loop_counter += 1
+        k = self.loop_ordinals.get(id(node))
         lc = self.cur.loops.get(k) if self.cur else None
         if lc is None:
             raise Unsupported(f"loop #{k} at line {node.lineno} of {self.cur.name} has no invariant in the sidecar (stale contract?)")
@@ -563,6 +584,8 @@ class Executor(ExprMixin):
         """a Python-side empty list that the loop grows is re-typed as a symbolic sequence (declared in the sidecar)"""
         for n, ty in (lc.get("types") or {}).items():
             v = st.env.get(n)
+            if v is NONE and ty == "val":
+                st.env[n] = NoneVal
             if isinstance(v, PyList) and ty.startswith("seq["):
                 sort = {"seq[val]": ValSeq, "seq[Tok]": TokSeq, "seq[int]": IntSeq, "seq[str]": StrSeq}[ty]
                 sq = z3.Empty(sort)
@@ -576,6 +599,9 @@ class Executor(ExprMixin):
             raise Unsupported("while-else")
         self.coerce_loop_types(st, lc)
         self.check_invariants(st, lc, "invariant-entry", s.lineno)
+        self.cur_loop = k
+        if self.product_run is not None:
+            self.loop_log.setdefault((self.product_run, k), []).append(("entry", st.clone()))
         self.havoc_for_loop(st, s.body + [ast.Expr(value=s.test)], lc.get("havoc", ()), lc.get("types"))
         self.assume_invariants(st, lc)
         out = []
@@ -586,9 +612,13 @@ class Executor(ExprMixin):
                 continue
             for p2, b in self.fork(p, Tr(c)):
                 if not b:
+                    if self.product_run is not None:
+                        self.loop_log.setdefault((self.product_run, k), []).append(("exit", p2))
                     out.append((p2, Flow("normal")))
                     continue
                 for p3, fl in self.exec_block(s.body, p2):
+                    if self.product_run is not None:
+                        self.loop_log.setdefault((self.product_run, k), []).append(("cont" if fl.kind in ("normal", "continue") else "exit", p3))
                     if fl.kind in ("normal", "continue"):
                         self.check_invariants(p3, lc, "invariant-preserved", s.lineno)
                         if v0 is not None:
@@ -635,6 +665,9 @@ class Executor(ExprMixin):
         if is_seq(it) or is_str(it):
             n = z3.Length(it)
             elem = lambda j: (it[j] if is_seq(it) else z3.SubString(it, j, 1))
+        elif isinstance(it, PyRuleSeq):
+            n = z3.Length(it.ids)
+            elem = lambda j: PyCallable("rulefn", "alt", ident=it.ids[j])
         elif isinstance(it, PyObj) and it.cls == "File":
             lines = it.fields["lines"]
             n = z3.Length(lines)
@@ -680,6 +713,8 @@ class Executor(ExprMixin):
             base = self.eval1(f.value, st)
             if is_seq(base):
                 return self.seq_mutation(e, st, base)
+        if isinstance(f, ast.Attribute) and f.attr == "join" and e.args and isinstance(e.args[0], (ast.GeneratorExp, ast.ListComp)):
+            return [(st, fresh("joined", z3.StringSort()))]      # only ever printed / used as message text
         if any(isinstance(a, ast.Starred) for a in e.args):
             return self.call_starred(e, st)
 
@@ -877,7 +912,7 @@ class Executor(ExprMixin):
         tk.fields["_tokens"] = z3.Concat(toks, ext)
         tk.fields["_index"] = i2
         tk.fields["_abs"] = a2
-        nc = PyCache.fresh("c")
+        nc = PyCache(F_cp(*key), F_ct(*key), F_ce(*key))
         m = z3.Int("cm!q")
         st.assume(z3.ForAll([m], z3.Implies(z3.Select(c.present, m),
                                             z3.And(z3.Select(nc.present, m), z3.Select(nc.tree, m) == z3.Select(c.tree, m),
@@ -894,6 +929,13 @@ class Executor(ExprMixin):
         tk.fields["_lines"] = self.fresh_like(lm, "lines")
         st.assume(self.spec_funcs["tk_ok"](self, st, tk))
         st.assume(self.spec_funcs["can_peek"](self, st, tk))
+        st.assume(self.spec_funcs["cache_ok"](self, st, nc, tk))
+        for cl in (self.cur.rulefn_preserves if self.cur else ()):
+            self.assuming = True
+            try:
+                st.assume(Tr(self.spec_eval(cl, st)))
+            finally:
+                self.assuming = False
         st.assume(z3.And(i2 >= 0, i2 <= z3.Length(tk.fields["_tokens"])))
         st.assume(z3.Implies(truthy(r), (i2 > idx) if fn.strict else (i2 >= idx)))
         st.trace.append(("call", fn.name, node.lineno))
@@ -906,6 +948,10 @@ class Executor(ExprMixin):
             raise Unsupported(f"too many arguments for {c.name}")
         for n, v in zip(names, args):
             env[n] = v
+            if c.params[n].strip() == "rulefn+":
+                ok = (isinstance(v, PyCallable) and ((v.kind == "rulefn" and v.strict) or
+                      (v.kind == "method" and getattr(self.method_contract(v.bound.cls, v.name), "strict_progress", False))))
+                self.vc(st, z3.BoolVal(bool(ok)), "pre", f"argument `{n}` of {c.name.split(':')[1]} makes strict progress on success (termination of the loop)", node.lineno)
         if c.vararg is not None:
             env["_varargs"] = PyTuple(args[len(names):])
         for k2, v in kwargs.items():
@@ -1071,6 +1117,7 @@ class Executor(ExprMixin):
     def b_open(self, e, st):
         enc = [kw for kw in e.keywords if kw.arg == "encoding"]
         f = PyObj("File", {"lines": fresh("file_lines", StrSeq), "has_encoding": z3.BoolVal(bool(enc))})
+        self.vc(st, z3.BoolVal(bool(enc)), "ambient", "open() is called with an explicit encoding (decoded text must not depend on the locale)", e.lineno)
         return [(st, f)]
 
     # ---- spec-only
@@ -1137,11 +1184,15 @@ class Executor(ExprMixin):
         """symbolically execute the real body of the function named by the contract; fills self.vcs"""
         self.cur = c
         self.loop_counter = 0
-        qual = c.name.split(":")[1]
+        qual = c.name.split(":")[1].split("#")[0]
         fn = self.find_function(qual)
         if fn is None:
             raise Unsupported(f"function {qual} not found in {self.filename} (stale contract)")
-        nloops = sum(1 for n in ast.walk(fn) if isinstance(n, (ast.While, ast.For)) and not self._concrete_for(n))
+        loops = sorted((n for n in ast.walk(fn) if isinstance(n, (ast.While, ast.For))), key=lambda n: (n.lineno, n.col_offset))
+        self.loop_ordinals = {id(n): i for i, n in enumerate(loops)}
+        stale = [k for k in c.loops if k >= len(loops)]
+        if stale:
+            raise Unsupported(f"sidecar has invariants for loop(s) {stale} but the function has only {len(loops)} loop(s) (stale contract)")
         st0 = St()
         # parameters
         alts = [(st0, {})]
@@ -1165,11 +1216,13 @@ class Executor(ExprMixin):
         if fn.args.vararg is not None:
             if c.vararg is None:
                 raise Unsupported("vararg without declared type")
+        if c.product:
+            return self.verify_product(c, fn, alts)
         results = []
         for s, env in alts:
             s.env = env
             if fn.args.vararg is not None:
-                s.env[fn.args.vararg.arg] = PyConst("varargs")
+                s.env[fn.args.vararg.arg] = PyRuleSeq(fresh("alts", IntSeq)) if c.vararg == "seq[rulefn]" else PyConst("varargs")
             if fn.args.kwarg is not None:
                 s.env[fn.args.kwarg.arg] = PyConst("kwargs")
             self.assuming = True
@@ -1194,11 +1247,120 @@ class Executor(ExprMixin):
     def _concrete_for(self, n):
         return False
 
+    def _set_path(self, env, path, value):
+        parts = path.split(".")
+        o = env[parts[0]]
+        for p in parts[1:-1]:
+            o = o.fields[p]
+        o.fields[parts[-1]] = value
+
+    def _get_path(self, env, path):
+        parts = path.split(".")
+        o = env[parts[0]]
+        for p in parts[1:]:
+            o = o.fields[p]
+        return NoneVal if (o is NONE and path in ("lastresult", "result", "tree")) else o
+
+    def verify_product(self, c: Contract, fn, alts):
+        """relational obligation: two runs from equal states that differ only in `on` produce equal observations"""
+        on, observe = c.product["on"], c.product["observe"]
+        for s, env in alts:
+            s.env = env
+            if fn.args.vararg is not None:
+                s.env[fn.args.vararg.arg] = PyRuleSeq(fresh("alts", IntSeq)) if c.vararg == "seq[rulefn]" else PyConst("varargs")
+            self.assuming = True
+            for r in c.requires:
+                s.assume(Tr(self.spec_eval(r, s)))
+            self.assuming = False
+            runs = []
+            self.product_related = tuple(c.product.get("related", ()))
+            self.loop_log = {}
+            for val in (True, False):
+                self.product_run = "A" if val else "B"
+                r = s.clone()
+                self._set_path(r.env, on, z3.BoolVal(val))
+                old = St()
+                memo: dict = {}
+                old.env = {k: clone(v, memo) for k, v in r.env.items()}
+                old.pc = r.pc
+                r.old = old
+                self.loop_counter = 0
+                saved = self.vcs
+                self.vcs = []          # single-run obligations are generated by the ordinary contract of the same function
+                try:
+                    outs = self.exec_block(fn.body, r)
+                finally:
+                    self.vcs = saved
+                runs.append(outs)
+            self.product_run = None
+            self.relational_loop_vcs(c, fn)
+            for pa, fa in runs[0]:
+                for pb, fb in runs[1]:
+                    self.stats["paths"] += 1
+                    joint = St()
+                    joint.pc = pa.pc + [x for x in pb.pc if not any(x is y for y in pa.pc)]
+                    ka = "raise" if fa.kind == "raise" else "return"
+                    kb = "raise" if fb.kind == "raise" else "return"
+                    if ka != kb:
+                        self.vc(joint, z3.BoolVal(False), "product", f"{on}=True {ka}s where {on}=False {kb}s", fn.lineno)
+                        continue
+                    if ka == "raise":
+                        self.vc(joint, z3.BoolVal(fa.value.cls == fb.value.cls), "product", "both runs raise the same exception class", fn.lineno)
+                        continue
+                    ra = fa.value if fa.kind == "return" else NONE
+                    rb = fb.value if fb.kind == "return" else NONE
+                    self.vc(joint, self.obs_eq(ra, rb), "product", f"returned value is the same with {on}=True and {on}=False", fn.lineno)
+                    for ob in observe:
+                        self.vc(joint, self.obs_eq(self._get_path(pa.env, ob), self._get_path(pb.env, ob)), "product",
+                                f"`{ob}` is the same after the call with {on}=True and {on}=False", fn.lineno)
+        return []
+
+    def relational_loop_vcs(self, c, fn):
+        """coupled loops: equal related state at entry; in lock step the two runs take the same kind of step (continue /
+        leave) and re-establish equal related state at the end of every iteration"""
+        loops = sorted({k for (_r, k) in self.loop_log})
+        for k in loops:
+            A, B = self.loop_log.get(("A", k), []), self.loop_log.get(("B", k), [])
+            for ka, pa in A:
+                for kb, pb in B:
+                    if (ka == "entry") != (kb == "entry"):
+                        continue
+                    joint = St()
+                    joint.pc = pa.pc + [x for x in pb.pc if not any(x is y for y in pa.pc)]
+                    if ka != kb:
+                        self.vc(joint, z3.BoolVal(False), "product", f"loop {k}: one run continues where the other leaves the loop ({ka}/{kb})", fn.lineno)
+                        continue
+                    if ka == "exit":
+                        continue        # compared at function end
+                    for path in self.product_related:
+                        try:
+                            va, vb = self._get_path(pa.env, path), self._get_path(pb.env, path)
+                        except (KeyError, AttributeError):
+                            continue
+                        if va is NONE and vb is NONE:
+                            continue
+                        self.vc(joint, self.obs_eq(va, vb), "product",
+                                f"loop {k} relational invariant ({'established' if ka == 'entry' else 'preserved'}): `{path}` is equal in both runs", fn.lineno)
+
+    def obs_eq(self, a, b):
+        if isinstance(a, PyCache) and isinstance(b, PyCache):
+            return z3.And(a.present == b.present, a.tree == b.tree, a.end == b.end)
+        if a is NONE and is_val(b):
+            return b == NoneVal
+        if b is NONE and is_val(a):
+            return a == NoneVal
+        return eq(a, b)
+
     def finish_path(self, c: Contract, fn, p: St, fl: Flow):
         if fl.kind == "raise":
             ex = fl.value
             allowed = any(exc_matches(ex.cls, a) for a in c.raises)
             self.vc(p, z3.BoolVal(allowed), "raises", f"exception {ex.cls} raised at line {ex.lineno} {ex.why} is allowed by the contract (raises={c.raises})", ex.lineno)
+            for cls, cond in c.raises_when.items():
+                if exc_matches(ex.cls, cls) and p.old is not None:
+                    so = St()
+                    so.pc, so.env, so.old = p.pc, p.old.env, None
+                    self.vc(p, Tr(self.spec_eval(cond, so)), "raises-only-when", f"{cls} is raised only when `{cond}` (pre-state)", ex.lineno)
             if allowed and getattr(c, "raises_ensures", None) and hasattr(ex, "obj"):
                 p.env["exc"] = ex.obj
                 for en in c.raises_ensures:
